@@ -29,18 +29,6 @@ import (
 
 type concSeg struct{ res, hi, lo int64 }
 
-// hangBudget: how many observed hangs of a process get the long liveness deadlines.
-var hangBudget atomic.Int32
-
-func init() { hangBudget.Store(2) }
-
-func livenessDeadline() time.Duration {
-	if hangBudget.Load() > 0 {
-		return 8 * time.Second
-	}
-	return 1500 * time.Millisecond
-}
-
 type concReader struct {
 	mu   sync.Mutex
 	segs []concSeg
@@ -120,25 +108,7 @@ func c19RunConc(ctx *core.Ctx, in c19Input) {
 				o = script[idx]
 			}
 			now := fc.nowNs()
-			if !o.Ok {
-				switch o.Fail {
-				case "empty":
-					return nil, nil
-				case "noid":
-					leaf, ierr := ca.issue(pub, idx, time.Unix(0, now).UTC(), time.Unix(0, now).UTC().Add(time.Hour), false)
-					if ierr != nil {
-						return nil, ierr
-					}
-					return []*x509.Certificate{leaf, ca.cert}, nil
-				default:
-					return nil, errIssuer
-				}
-			}
-			leaf, ierr := ca.issue(pub, idx, time.Unix(0, now+o.Dnb).UTC(), time.Unix(0, now+o.Dna).UTC(), true)
-			if ierr != nil {
-				return nil, ierr
-			}
-			return []*x509.Certificate{leaf, ca.cert}, nil
+			return answer(ca, ta, in.UseDir, pub, idx, now, o)
 		},
 	}
 	if in.UseDir {
@@ -285,7 +255,7 @@ func c19RunConc(ctx *core.Ctx, in c19Input) {
 		}
 	}
 	if hung || stuckReaders > 0 || !readyOK {
-		hangBudget.Add(-1)
+		noteHang()
 	}
 	runCancel()
 	if !runReturned {
